@@ -219,7 +219,16 @@ class Container:
         # Check that each object is of compatible type
         if ignore_type:
             if not isinstance(other, self.__class__):
-                other = type(self)(source=other, copy=False)
+                try:
+                    other = type(self)(source=other, copy=False)
+                except Exception as error:
+                    # An object from which an instance of this class
+                    # can not be initialised is not equal to it
+                    logger.info(
+                        f"{self.__class__.__name__}: Can't be compared "
+                        f"with {other.__class__.__name__}: {error}"
+                    )  # pragma: no cover
+                    return False
         elif not isinstance(other, self.__class__):
             logger.info(
                 f"{self.__class__.__name__}: Incompatible type: {type(other)}"
